@@ -51,7 +51,9 @@ impl Reservoir {
         if idx < self.values.len() {
             self.values[idx].store(value.to_bits(), Relaxed);
         } else {
-            let maybe_idx = fastrand(idx);
+            // `idx` is the zero-based position of this value in the stream, so it must replace a held value with
+            // probability `capacity / (idx + 1)`: draw from `0..=idx`, not `0..idx`.
+            let maybe_idx = fastrand(idx + 1);
             if maybe_idx < self.values.len() {
                 self.values[maybe_idx].store(value.to_bits(), Relaxed);
             }
